@@ -73,6 +73,17 @@ func check(r *harness.Run, sc scenario) (string, error) {
 	if len(st.Conflicted) > 0 {
 		r.Nontrivial(sc.Version + fmt.Sprint(sc.IDMode, sc.TSMode) + b.Sig)
 	}
+	// rejected-event oracles: the same scenario with each single non-create event reported as rejected by the caller
+	// (algorithms v2 / v2.1 consult the oracle in the auth-event fallback of the iterative auth checks)
+	if sc.Reject == 0 && len(st.Conflicted) > 0 && algoOf(sc.Version) != 1 && (rejectOracles || (len(sc.A) <= 1 && len(sc.B) <= 1 && len(sc.Third) == 0)) {
+		for i := 1; i < len(b.All); i++ {
+			sc2 := sc
+			sc2.Reject = i
+			if _, err := check(r, sc2); err != nil {
+				return b.Sig, err
+			}
+		}
+	}
 	if len(st.Rejected) > 0 {
 		r.Outcome("some-event-rejected")
 	} else if len(st.Conflicted) > 0 {
@@ -83,11 +94,14 @@ func check(r *harness.Run, sc scenario) (string, error) {
 	return b.Sig, nil
 }
 
+// rejectOracles turns the rejected-event dimension on (thorough tier; the quick tier applies it to single-action branches)
+var rejectOracles bool
+
 func main() { harness.Main("C10", "model_checking", run) }
 
 func run(r *harness.Run) {
 	r.Rule("room DAG histories generated from a base room (create, creator join, power levels, join rules, two joins): every unordered pair of branches, each every sequence of <= L actions from an alphabet of 25-27 actions (power-level edits by two users, join-rule changes, bans, kicks, unbans, invites, joins, leaves, knocks, topic/name/own-state changes by three users); an action enters a branch only if the reference auth rules allow it there (honest servers); auth events chosen per the specification's selection rule; state sets = the states at the two (three) tips; x timestamp patterns {ascending, all equal, descending} x event-ID orders {with, against creation order}; room versions 1 (algorithm v1), 2 and 10 (v2), 12 and org.matrix.hydra.11 (v2.1); scenarios that generate the same pair of branches are deduplicated. Oracle: resolved event-ID set of ResolveConflictsNew == refstate (independent implementation of v1 / v2 / v2.1 with refinements R1-R8 over the reference auth rules). Non-trivial = distinct scenario with >= 1 conflicted key.")
-	r.Assume("refstate + refauth are the definition (specification + DESIGN.md §5); rejected-event oracles are exercised by the third-branch scenarios only in the thorough tier")
+	r.Assume("refstate + refauth are the definition (specification + DESIGN.md §5); rejected-event oracles: every conflicted scenario is re-run with each single event reported as rejected by the caller (thorough tier: all scenarios; quick tier: scenarios whose branches have one action)")
 	r.OnReplay("scenario", func(raw json.RawMessage) error {
 		var sc scenario
 		if err := json.Unmarshal(raw, &sc); err != nil {
@@ -100,6 +114,7 @@ func run(r *harness.Run) {
 		return
 	}
 	L := r.Pick(2, 2)
+	rejectOracles = r.Thorough()
 	type mode struct{ id, ts int }
 	modes := []mode{{0, 0}, {1, 1}, {0, 2}}
 	vers := []string{"1", "2", "10", "12", "org.matrix.hydra.11"}
